@@ -191,6 +191,7 @@ func (c *SchemaCtx) IssueFromCoerce(err error) *ZogIssue {
 	e.Dtype = c.DType
 	e.Value = c.Data
 	e.Err = err
+	e.Params = nil
 	return e
 }
 
